@@ -224,16 +224,22 @@ def run_stream(c, focus):
         binary = vlib.build(b)
         trace = os.path.join(wd, "graph-%s.ndjson" % b)
         vlib.run_harness(binary, ["stream-script", "--script", spath, "--seed", str(c.seed)], out=trace)
-        recs0 = vlib.read_ndjson(trace)
-        if len(recs0) != len(expect):
-            raise vlib.ToolError("script produced %d events, expected %d" % (len(recs0), len(expect)))
-        dr = drift(recs0, expect)
-        drift_total += len(dr)
-        for i, got, want in dr[:5]:
-            vlib.log("MODEL-DRIFT (%s) event %d: code %s model %s" % (b, i, got, want))
-        recs, eps, r = validate_histories(c, trace, b, "graph replay (%s)" % b)
-        traces += len(eps)
-        c.add_events([e for e in recs if e["ev"] != "new"], key=lambda e: {k: v for k, v in e.items() if k not in ("st", "k")}, sample=1)
+        nrec = 0
+        for shard, first, cnt in vlib.split_trace(trace):
+            recs0 = vlib.read_ndjson(shard)
+            dr = drift(recs0, expect[first:first + cnt])
+            drift_total += len(dr)
+            for i, got, want in dr[:5]:
+                vlib.log("MODEL-DRIFT (%s) event %d: code %s model %s" % (b, first + i, got, want))
+            recs, eps, r = validate_histories(c, shard, b, "graph replay (%s)" % b)
+            traces += len(eps)
+            nrec += cnt
+            c.add_events([e for e in recs if e["ev"] != "new"], key=lambda e: {k: v for k, v in e.items() if k not in ("st", "k")}, sample=1)
+            os.remove(shard)
+            del recs0, recs, eps
+        os.remove(trace)
+        if nrec != len(expect):
+            raise vlib.ToolError("script produced %d events, expected %d" % (nrec, len(expect)))
         # (e) random and test-suite-derived histories
         trace = os.path.join(wd, "rand-%s.ndjson" % b)
         vlib.run_harness(binary, ["stream-rand", "--seed", str(c.seed), "--tier", c.tier], out=trace)
